@@ -406,4 +406,124 @@ def runCase (j : Json) : Except String Json := do
   return Json.mkObj [("hist", Json.arr hist.toArray), ("calls", Json.arr calls.toArray),
                      ("runs", Json.arr runs.toArray), ("samples", Json.arr samples)]
 
-def main : IO Unit := serve runCase
+/-! ### `cancel_and_await` cases  (`"kind":"caa"`)
+  {"kind":"caa","task":{"dur":d,"end":O,"oc":[{"k":n,"d":d,"end":O},…]},      oc[j] = reaction to the j-th delivered
+   "ctl":[{"t":T,"ops":["create"|"cancel"|"caa",…]},…],"end":T}                cancellation: n awaits of d µs, then O
+Output: {"task":{"state":…,"done_at":t|null,"cancelling":n},"callers":[{"ret":t|null,"raised":"none"|O},…]} -/
+
+structure CaSim where
+  st : CA.St := CA.init
+  dur : Int
+  fin : Outcome
+  oc : Array (Nat × Int × Outcome)
+  created : Bool := false
+  started : Bool := false
+  queued : Bool := false
+  inCleanup : Bool := false
+  j : Nat := 0
+  remK : Nat := 0
+  cur : Nat × Int × Outcome := (0, 0, .cancelled)
+  wake : Option Int := none
+  doneAt : Option Int := none
+  queue : Array (Nat × Nat) := #[]     -- (0,_) task step | (1,_) first step of a new call | (2,c) call c resumes
+
+namespace CaSim
+
+def emit (m : CaSim) (e : CA.Ev) : CaSim := { m with st := CA.step m.st e }
+def push (m : CaSim) (it : Nat × Nat) : CaSim := { m with queue := m.queue.push it }
+
+def finished (m : CaSim) : CaSim := Id.run do
+  if !m.st.task.isDone then return m
+  let mut m := { m with doneAt := some m.st.now, wake := none }
+  for c in [0:m.st.callers.length] do
+    if m.st.callers[c]! == .awaiting then m := m.push (2, c)
+  return m
+
+/-- `task.cancel()` has just been called: a suspended task is woken. -/
+def poke (m : CaSim) : CaSim :=
+  if m.created && m.started && !m.queued && !m.st.task.isDone && m.st.task.cancelReq
+  then ({ m with queued := true }).push (0, 0) else m
+
+def taskStep (m : CaSim) : CaSim :=
+  let m := { m with queued := false }
+  if m.st.task.isDone then m
+  else if !m.started then
+    let m := ({ m with started := true }).emit (.taskStep .cont)
+    if m.st.task.isDone then m.finished else { m with wake := some (m.st.now + m.dur) }
+  else if m.st.task.cancelReq then
+    let r := if m.oc.size = 0 then (0, 0, Outcome.cancelled) else m.oc[min m.j (m.oc.size - 1)]!
+    let m := { m with j := m.j + 1, inCleanup := true, cur := r }
+    if r.1 = 0 then (m.emit (.taskStep (.fin r.2.2))).finished
+    else { (m.emit (.taskStep .cont)) with remK := r.1, wake := some (m.st.now + r.2.1) }
+  else match m.wake with
+    | none => m
+    | some w =>
+      if w > m.st.now then m
+      else if !m.inCleanup then (m.emit (.taskStep (.fin m.fin))).finished
+      else if m.remK ≤ 1 then (m.emit (.taskStep (.fin m.cur.2.2))).finished
+      else { (m.emit (.taskStep .cont)) with remK := m.remK - 1, wake := some (m.st.now + m.cur.2.1) }
+
+def drain (m : CaSim) : CaSim := Id.run do
+  let mut m := m
+  let mut k := 0
+  while k < m.queue.size && k < 10000 do
+    let it := m.queue[k]!
+    if it.1 = 0 then m := m.taskStep
+    else if it.1 = 1 then
+      let c := m.st.callers.length
+      m := (m.emit .call).poke
+      if m.st.callers[c]! == .awaiting && m.st.task.isDone then m := m.push (2, c)
+    else m := m.emit (.wake it.2)
+    k := k + 1
+  return { m with queue := #[] }
+
+def runUntil (m : CaSim) (t : Int) : CaSim := Id.run do
+  let mut m := m
+  let mut fuel := 10000
+  while fuel > 0 do
+    fuel := fuel - 1
+    match m.wake with
+    | some w =>
+      if w ≤ t && !m.st.task.isDone then
+        if w > m.st.now then m := m.emit (.advance (w - m.st.now).toNat)
+        if !m.queued then m := ({ m with queued := true }).push (0, 0)
+        m := m.drain
+      else break
+    | none => break
+  if t > m.st.now then m := m.emit (.advance (t - m.st.now).toNat)
+  return m
+
+end CaSim
+
+def runCaa (j : Json) : Except String Json := do
+  let tj ← j.getObjVal? "task"
+  let oc ← (← getArr tj "oc").mapM (fun x => do
+    pure ((← getNat x "k"), (← getInt x "d"), (← parseOutcome (← getStr x "end"))))
+  let mut m : CaSim := { dur := ← getInt tj "dur", fin := ← parseOutcome (← getStr tj "end"), oc := oc }
+  for g in ← getArr j "ctl" do
+    m := m.runUntil (← getInt g "t")
+    for o in ← getArr g "ops" do
+      match ← o.getStr? with
+      | "create" => m := ({ m with created := true, queued := true }).push (0, 0)
+      | "cancel" => m := (m.emit .cancel).poke
+      | "caa" => m := m.push (1, 0)
+      | op => throw s!"unknown op {op}"
+    m := m.drain
+  m := m.runUntil (← getInt j "end")
+  let state := match m.st.task.phase with | .done o => outcomeStr o | _ => "pending"
+  let callers := m.st.callers.map (fun c => match c with
+    | .awaiting => Json.mkObj [("ret", Json.null), ("raised", Json.str "none")]
+    | .returned _ r tm => Json.mkObj [("ret", Json.num tm),
+        ("raised", Json.str (match r with | some o => outcomeStr o | none => "none"))])
+  return Json.mkObj [
+    ("task", Json.mkObj [("state", Json.str state),
+      ("done_at", match m.doneAt with | some t => Json.num t | none => Json.null),
+      ("cancelling", Json.num m.st.task.cancelling)]),
+    ("callers", Json.arr callers.toArray)]
+
+def runAny (j : Json) : Except String Json :=
+  match j.getObjVal? "kind" with
+  | .ok (.str "caa") => runCaa j
+  | _ => runCase j
+
+def main : IO Unit := serve runAny
